@@ -446,7 +446,7 @@ func c13(c *core.Ctx) {
 	c.Family("single-exhaustive", len(types)*2, func(k *core.Case) {
 		t := types[k.Index/2]
 		crit := k.Index%2 == 1
-		reps := 1
+		reps := 3
 		if k.Thorough() {
 			reps = 40
 		}
@@ -463,7 +463,7 @@ func c13(c *core.Ctx) {
 			}
 		}
 	})
-	c.Family("multiple", c.N(6000, 1500000), func(k *core.Case) {
+	c.Family("multiple", c.N(30000, 1500000), func(k *core.Case) {
 		base := gen.Msg(k.R, gen.Opt{MaxPayloads: 5, AllowEmpty: true})
 		n := 2 + k.R.Intn(4)
 		var ins []abs.Payload
@@ -484,7 +484,7 @@ func c13(c *core.Ctx) {
 		}
 		c13One(k, base, ins, pos, &ref.Opts{Noise: k.R.Byte, CritKnown: k.R.Bool}, "multiple")
 	})
-	c.Family("critical-on-implemented", c.N(3000, 500000), func(k *core.Case) {
+	c.Family("critical-on-implemented", c.N(12000, 500000), func(k *core.Case) {
 		base := gen.Msg(k.R, gen.Opt{MaxPayloads: 5})
 		c13One(k, base, nil, nil, &ref.Opts{CritKnown: func() bool { return true }}, "critical-on-implemented")
 		k.Count("critical_on_implemented", 1)
